@@ -3,6 +3,7 @@ import DiskfsModel.Model.Iso.Names
 import DiskfsModel.Model.Iso.Layout
 import DiskfsModel.Model.Iso.Codec
 import DiskfsModel.Model.Iso.Reader
+import DiskfsModel.Model.Iso.Image
 namespace Driver.Iso
 open Diskfs Diskfs.Iso Driver
 
@@ -134,6 +135,124 @@ def read (args : List String) : IO String := do
       if e.isDir then s!"{e.path}|d|{e.loc}|{e.size}" else s!"{e.path}|f|{e.loc}|{e.size}|{e.crc}")
     return s!"bs={r.bs}\tvol={r.volBlocks}\tptS={r.ptSize}\tptL={r.ptL}\tptM={r.ptM}\troot={r.rootLoc}:{r.rootSize}\tv={v}"
 
+/-! ### whole-image model (Model/Iso/Image.lean) on real plain images -/
+
+def devOf (b : ByteArray) : Dev := fun i => if i < b.size then b.get! i else 0
+
+def pathStr (p : List Bytes) (isDir : Bool) : String :=
+  let comps := p.map fun c => String.ofList (c.map fun x => Char.ofNat x.toNat)
+  match comps.reverse with
+  | [] => "."
+  | last :: rest => "/".intercalate ((if isDir then last else stripVersion last) :: rest).reverse
+
+def viewStr (es : List RE) : String :=
+  let rows := es.map fun e =>
+    let p := pathStr e.path e.isDir
+    (p, if e.isDir then s!"{p}|d|{e.loc}|{e.size}" else s!"{p}|f|{e.loc}|{e.size}|{crc32 e.data}")
+  ";".intercalate ((sortBy (fun (a b : String × String) => a.1 < b.1) rows).map (·.2))
+
+/-- iso.pvd b=hex(2048 bytes) → the fields `decodePVD` extracts, and whether `encodePVD` of them
+    gives the same 2048 bytes again -/
+def pvdOp (args : List String) : String :=
+  let b := (argHex args "b").getD []
+  match decodePVD b with
+  | none => "err"
+  | some p =>
+    s!"vol={p.volSize}\tset={p.setSize}\tseq={p.seqNo}\tbs={p.blocksize}\tptS={p.ptSize}\tptL={p.ptL}\tptM={p.ptM}\troot={p.root.loc}:{p.root.size}\tre={if encodePVD p == b then 1 else 0}"
+
+/-- iso.readp path= first= → the view of the PURE reader `readImageP` (the one `reader_finds_layout` is about) -/
+def readP (args : List String) : IO String := do
+  let some path := arg args "path" | return "err=nopath"
+  let ba ← IO.FS.readBinFile path
+  match readImageP (devOf ba) (argNatD args "first" 32768) 64 with
+  | none => return "err"
+  | some (p, es) =>
+    return s!"bs={p.blocksize}\tvol={p.volSize}\tptS={p.ptSize}\tptL={p.ptL}\tptM={p.ptM}\troot={p.root.loc}:{p.root.size}\tv={viewStr es}"
+
+instance : Inhabited PEnt := ⟨{ name := [], isDir := false, loc := 0, size := 0, date := [], content := [] }⟩
+
+structure B where
+  ents : Array PEnt
+  kids : Array (List Nat)
+  par : Array Nat
+
+/-- rebuild the tree (entries with their records' fields, children in record order) from the image -/
+partial def scan (img : Dev) (bs : Nat) (b : B) (d : Nat) : Option B := do
+  let e := b.ents[d]!
+  let recs ← decodeAll (parseExtent bs (2 * e.size + 1) 0 (readAt img (e.loc * bs) e.size))
+  match recs with
+  | _ :: _ :: ks =>
+    let mut b := b
+    let mut mine : List Nat := []
+    for r in ks do
+      let c := b.ents.size
+      let isDir := isDirFlag r.flags
+      b := { ents := b.ents.push { name := r.name, isDir := isDir, loc := r.loc, size := r.size, date := r.date,
+                                   content := if isDir then [] else readAt img (r.loc * bs) r.size },
+             kids := b.kids.push [], par := b.par.push d }
+      mine := mine ++ [c]
+      if isDir then b ← scan img bs b c
+    return { b with kids := b.kids.set! d mine }
+  | _ => none
+
+def allB (l : List Nat) (p : Nat → Bool) : Bool := l.all p
+
+/-- the hypotheses of `reader_finds_layout` other than `Placed`, as a Bool -/
+def hypsOK (i : ImageIn) (fuel : Nat) : Bool :=
+  let t := i.t
+  let idx := List.range t.n
+  let fits : Bool := Id.run do
+    -- Fits fuel 0, by levels
+    let mut level : List Nat := [0]
+    let mut f := fuel
+    let mut ok := true
+    while !level.isEmpty do
+      if f = 0 then ok := false; break
+      f := f - 1
+      level := level.flatMap fun d => (t.kids d).filter fun c => (t.ent c).isDir
+    return ok
+  decide (2048 ≤ i.bs) && decide (0 < t.n) && (t.ent 0).isDir && decide (i.pvd.blocksize = i.bs) && decide (i.pvd.root = t.selfRec 0) &&
+  allB idx (fun d => (t.kids d).all (· < t.n) && decide (t.parent d < t.n)) &&
+  allB idx (fun c => decide ((t.ent c).loc < 2 ^ 32) && decide ((t.ent c).size < 2 ^ 32) && decide ((t.ent c).date.length = 7) && decide ((t.ent c).name.length < 222)) &&
+  allB idx (fun c => if (t.ent c).isDir then i.dirs.contains c else i.files.contains c) &&
+  allB i.dirs (fun d => decide ((t.ent d).size = (t.dirBytes i.bs d).length)) &&
+  allB i.files (fun f => decide ((t.ent f).size = (t.ent f).content.length)) &&
+  decide (i.pvd.sysId.length = 32 ∧ i.pvd.volId.length = 32 ∧ i.pvd.volSize < 2 ^ 32 ∧ i.pvd.setSize < 2 ^ 16 ∧ i.pvd.seqNo < 2 ^ 16 ∧
+    i.pvd.blocksize < 2 ^ 16 ∧ i.pvd.ptSize < 2 ^ 32 ∧ i.pvd.ptL < 2 ^ 32 ∧ i.pvd.ptLopt < 2 ^ 32 ∧ i.pvd.ptM < 2 ^ 32 ∧ i.pvd.ptMopt < 2 ^ 32 ∧
+    i.pvd.root.loc < 2 ^ 32 ∧ i.pvd.root.size < 2 ^ 32 ∧ i.pvd.root.date.length = 7 ∧ i.pvd.root.name.length = 1 ∧ i.pvd.tail.length = 1858) &&
+  fits
+
+/-- iso.encimg path= first= → the model ENCODES the image from the tree: CRC of every directory
+    extent / of the PVD / of the two path tables as `ImageIn.writes` has them, whether the
+    locations are `Placed`, whether the other hypotheses of `reader_finds_layout` hold, and (small
+    trees) whether the pure reader over the model's own image returns the tree -/
+def encImg (args : List String) : IO String := do
+  let some path := arg args "path" | return "err=nopath"
+  let ba ← IO.FS.readBinFile path
+  let img := devOf ba
+  let first := argNatD args "first" 32768
+  let some pvd := decodePVD (readAt img first 2048) | return "err=pvd"
+  let bs := pvd.blocksize
+  let root : PEnt := { name := [0], isDir := true, loc := pvd.root.loc, size := pvd.root.size, date := pvd.root.date, content := [] }
+  let some b := scan img bs { ents := #[root], kids := #[[]], par := #[0] } 0 | return "err=scan"
+  let t : PTree := { n := b.ents.size, ent := fun i => b.ents.getD i root, kids := fun i => b.kids.getD i [], parent := fun i => b.par.getD i 0 }
+  let idx := List.range t.n
+  -- layout order = by location; an empty file occupies no block and shares its location with what follows
+  let key := fun (c : Nat) => 2 * (t.ent c).loc + (if (t.ent c).size > 0 then 1 else 0)
+  let byLoc := sortBy (fun (a c : Nat) => key a < key c)
+  let i : ImageIn := { t := t, bs := bs, dirs := byLoc (idx.filter fun c => (t.ent c).isDir),
+                       files := byLoc (idx.filter fun c => !(t.ent c).isDir),
+                       pvd := pvd, ptLBytes := readAt img (pvd.ptL * bs) pvd.ptSize, ptMBytes := readAt img (pvd.ptM * bs) pvd.ptSize }
+  let ds := ",".intercalate (i.dirs.map fun d => s!"{(t.ent d).loc}:{crc32 (padBlock bs (t.dirBytes bs d))}")
+  let placed := decide (i.mid = seqWr i.bs (dataStartSector + 2) (i.mid.map (·.data)))
+  let walkOK : String :=
+    if t.n ≤ 12 && ((i.files.map fun f => (t.ent f).size).sum ≤ 6000) then
+      -- `i.image` = `applyWrs blank i.writes`; the write list is bound once (not rebuilt for every byte read)
+      let ws := i.writes
+      (if readImageP (applyWrs blank ws) (16 * bs) 64 == some (pvd, t.walk 64 [] 0) then "1" else "0")
+    else "skipped"
+  return s!"n={t.n}\td={ds}\tpvd={crc32 (encodePVD pvd)}\tplaced={if placed then 1 else 0}\thyp={if hypsOK i 64 then 1 else 0}\twalk={walkOK}"
+
 end Driver.Iso
 
 partial def loop (h : IO.FS.Stream) (out : IO.FS.Stream) : IO Unit := do
@@ -152,6 +271,9 @@ partial def loop (h : IO.FS.Stream) (out : IO.FS.Stream) : IO Unit := do
       | "iso.pt" => pure (Driver.Iso.pt args)
       | "iso.blocks" => pure (Driver.Iso.blocks args)
       | "iso.read" => Driver.Iso.read args
+      | "iso.pvd" => pure (Driver.Iso.pvdOp args)
+      | "iso.readp" => Driver.Iso.readP args
+      | "iso.encimg" => Driver.Iso.encImg args
       | _ => pure "unknown-op"
     out.putStrLn s!"model\t{id}\t{r}"
   | _ => pure ()
